@@ -116,7 +116,7 @@ Section NonIdle.
     eapply NOK_ext; [| | |exact (HS k nd nc Hn Hc)].
     - intros i. rewrite (nshape_all _ _ Hsh). tauto.
     - exact Hsc.
-    - intros i _. apply HK.
+    - intros i _. apply (K_ient _ _ HK).
   Qed.
   Lemma NI_K s s' : K s s' -> NI cf s -> NI cf s'.
   Proof. apply NIx_K. Qed.
@@ -179,7 +179,7 @@ Section NonIdle.
   Proof.
     intros HW HN Hj Hk Hc Hin Htr H.
     assert (Hidn : n_id nd = j) by (pose proof (WFx_Idx _ _ HW k nd Hk); lia).
-    destruct (start_service_decomp _ _ _ _ _ _ _ Hj Hk Hidn H) as (ndk & sv' & En & Hsh & Hsv & A1 & A2 & A3 & A4 & He).
+    destruct (start_service_decomp _ _ _ _ _ _ _ Hj Hk Hidn H) as (ndk & sv' & En & Hsh & Hsv & A1 & A2 & A3 & A4 & He & _).
     apply (NI_any cf k). eapply NIx_step; [exact En|exact Hk|exact HN| |].
     - intros nc' Hc'. rewrite Hc in Hc'. injection Hc' as <-. intros H0. rewrite (nshape_all _ _ Hsh), Hsv. eapply Htr; eauto.
     - intros k' nd' i Hne Hk' Hi. rewrite He. destruct (i =? c) eqn:E; [|reflexivity]. apply Z.eqb_eq in E. subst i.
@@ -213,7 +213,7 @@ Section NonIdle.
             [exact (K_WFx _ _ _ K1 W0)|exact (NIx_K _ _ _ _ _ K1 N0)|exact Hj|exact Hnk1|exact Hc|rewrite (nshape_all _ _ Hsh1); exact Hin| |exact Hrest].
           intros sv' e' A1 A2 He' HOK. rewrite Ec0 in *.
           eapply NOK_start_acc; [exact HOK|exact Hsv0|congruence|rewrite (nshape_all _ _ Hsh1); exact Hin| |exact He'].
-          rewrite (proj2 (proj2 K1)). exact Hw.
+          rewrite (K_ient _ _ K1). exact Hw.
         * subst s'. apply Hfin; [exact K1|]. apply NOK_allbusy; [exact (proj1 Hnode)|]. apply find_free_server_none. exact Eff.
       + assert (s' = s1) by (destruct (find_free_server (n_servers nd)); exact Hrest). subst s'.
         destruct (choose_none_spec _ _ _ _ I0 Hch) as (K1 & Hnw).
@@ -257,7 +257,7 @@ Section NonIdle.
   (* ---------- a customer in flight lands ---------- *)
   Lemma accept_ni j x fl s s' : WFx (i_id x :: fl) s -> Srv cf s -> NI cf s -> i_server x = None -> accept cf j x s = Ok (tt, s') -> NI cf s'.
   Proof.
-    intros HW HS HN Hx H. destruct (accept_decomp _ _ _ _ _ _ HW H) as (k & nd & ndk & s1 & Hk & Hnk & En & Hsv & Hmem & He & W1 & Hb).
+    intros HW HS HN Hx H. destruct (accept_decomp _ _ _ _ _ _ HW H) as (k & nd & ndk & s1 & Hk & Hnk & En & Hsv & Hmem & He & W1 & _ & Hb).
     assert (S1 : Srv cf s1) by (eapply accept_mid_srv; eauto).
     assert (Hfly : forall k' nd' i', nth_error (nodes s) k' = Some nd' -> In i' (all_individuals nd') -> ient (inds s1) i' = ient (inds s) i').
     { intros k' nd' i' Hk' Hi'. rewrite He. destruct (i' =? i_id x) eqn:E; [|reflexivity]. apply Z.eqb_eq in E. subst i'.
@@ -283,7 +283,7 @@ Section NonIdle.
   Proof.
     induction f as [|f IH]; intros j i d fl s s' HW HS HN H; [discriminate|].
     destruct (release_decomp _ _ _ _ _ _ _ _ HW H) as
-      (k & nd & nc & x & ndk & x3 & freed & t4 & t5 & t6 & Hk & Hnk & Hc & Hf & Hx3i & Hmem & W4 & W5 & W6 & En4 & Hf4 & Hcase & Ebs & Eacc & Hrest).
+      (k & nd & nc & x & ndk & x3 & freed & t4 & t5 & t6 & Hk & Hnk & Hc & Hf & Hx3i & Hmem & W4 & W5 & W6 & En4 & Hf4 & Hlog & Hcase & Ebs & Eacc & Hrest).
     destruct (release_mid_srv _ _ _ _ _ _ _ _ _ _ _ _ HW HS Hnk Hc Hf Hmem W4 En4 Hf4 Hcase) as (S4 & Hx3 & Hfree).
     assert (S5 : Srv cf t5) by (eapply bsip_release_srv; [exact W4|exact S4|exact Hk|exact Hc|exact Hfree|exact Ebs]).
     assert (Hni : ~ In i (all_individuals ndk)).
@@ -327,7 +327,7 @@ Section NonIdle.
     release_individual cf j x s = Ok (tt, s') -> NI cf s'.
   Proof.
     intros HW HS HN Hx H.
-    destruct (release_individual_decomp _ _ _ _ _ (WFx_Idx _ _ HW) H) as (s0 & s1 & En & Es & Ei & K1 & Hc).
+    destruct (release_individual_decomp _ _ _ _ _ (WFx_Idx _ _ HW) H) as (s0 & s1 & En & Es & Ei & _ & K1 & Hc).
     assert (W0 : WFx (i_id x :: fl) s0) by (eapply WFx_shape; eauto).
     assert (Hfly : forall k nd i, nth_error (nodes s) k = Some nd -> In i (all_individuals nd) -> i <> i_id x).
     { intros k nd i Hk Hi ->. eapply WFx_flying; [exact HW|left; reflexivity|exact Hk|exact Hi]. }
@@ -370,8 +370,9 @@ Section NonIdle.
   Theorem event_step_ni s s' : NIInv cf s -> event_step cf s = Ok (tt, s') -> NIInv cf s'.
   Proof.
     intros [HJ HN] H. split; [eapply event_step_srv; eauto|]. destruct HJ as [HW HS].
-    destruct (event_step_decomp _ _ _ (WFx_Idx _ _ HW) H) as (s1 & s2 & K1 & Hev & K2).
-    pose proof (K_WFx _ _ _ K1 HW) as W1. pose proof (Srv_K _ _ _ K1 HS) as S1. pose proof (NI_K _ _ K1 HN) as N1.
+    destruct (event_step_decomp _ _ _ H) as (s2 & Hev & K2).
+    assert (W1 : WFx [] (s <| log := [] |>)) by (eapply WFx_shape; [|exact HW]; reflexivity).
+    pose proof (Srv_log0 _ _ HS) as S1. assert (N1 : NI cf (s <| log := [] |>)) by (intros k nd nc Hk Hc; exact (HN k nd nc Hk Hc)).
     assert (C2 : WFx [] s2 /\ NI cf s2).
     { destruct Hev as [Ha|[j Hf]]; [split; [eapply arrival_have_event_spec; eauto|eapply arrival_have_event_ni; eauto]
                                    |split; [eapply finish_service_spec; eauto|eapply finish_service_ni; eauto]]. }
